@@ -13,18 +13,31 @@ import (
 	"verif.local/simrt/simnet"
 )
 
-// logBuf is the server Logger: it records every line (panic reports are found here).
-type logBuf struct{ lines []string }
+// logBuf is the server Logger: it records every line (panic reports are found here). It is
+// written by library goroutines, so it stores into a preallocated array from //go:norace code
+// (no append, no map): the logger must neither race nor synchronise the goroutines that use it.
+type logBuf struct {
+	buf   [256]string
+	n     int
+	lines []string // filled by finish() after the run
+}
 
+//go:norace
 func (l *logBuf) Printf(format string, args ...interface{}) {
-	if len(l.lines) < 200 {
-		l.lines = append(l.lines, fmt.Sprintf(format, args...))
+	s := fmt.Sprintf(format, args...)
+	if l.n < len(l.buf) {
+		l.buf[l.n] = s
+		l.n++
 	}
+}
+
+func (l *logBuf) all() []string {
+	return l.buf[:l.n]
 }
 
 func (l *logBuf) panics() []string {
 	var out []string
-	for _, s := range l.lines {
+	for _, s := range l.all() {
 		if strings.Contains(s, "panic") {
 			out = append(out, s)
 		}
